@@ -23,8 +23,9 @@ LETTERS = "abcdefghijklmnopqrstuvwxyz"
 # ----------------------------------------------------------------------------------------------
 
 
-def _einsum(arrays, labels, out):
-    """plain numpy einsum in sublist form; labels are arbitrary hashables"""
+def _einsum(arrays, labels, out, sequential=False):
+    """plain numpy einsum in sublist form; labels are arbitrary hashables.  sequential: fold the operands left to right
+    in the order given (the cheap order for chains, whose operands the caller has sorted by site)"""
     sym = {}
     for lab in labels:
         for x in lab:
@@ -48,24 +49,38 @@ def _einsum(arrays, labels, out):
             size[x] = d
     for d in size.values():
         space *= d
-    return np.einsum(*args, optimize="greedy" if space > 5000 else False)
+    if space <= 5000 or len(arrays) < 3:
+        return np.einsum(*args)
+    if sequential:
+        n = len(arrays)
+        path = ["einsum_path", (0, 1)] + [(0, m - 1) for m in range(n - 1, 1, -1)]
+        return np.einsum(*args, optimize=path)
+    return np.einsum(*args, optimize="greedy")
 
 
-def den(arrays, labels, out, exponent=0.0):
+def den(arrays, labels, out, exponent=0.0, sequential=False):
     """(value, scale): value = einsum * 10**exponent in double precision, scale = the same sum with every entry
     replaced by its modulus (a bound on the magnitude of the summed terms, used for scale-aware tolerances)"""
     cplx = any(np.iscomplexobj(a) for a in arrays)
     up = [np.asarray(a, dtype=np.complex128 if cplx else np.float64) for a in arrays]
     f = 10.0 ** float(np.real(exponent))
-    val = _einsum(up, labels, out) * f
-    sc = _einsum([np.abs(a) for a in up], labels, out) * f
+    val = _einsum(up, labels, out, sequential) * f
+    sc = _einsum([np.abs(a) for a in up], labels, out, sequential) * f
     return val, float(np.max(sc)) if np.size(sc) else 0.0
 
 
+def _site_of(tags):
+    """smallest k of the site tags I{k} of a tensor (chains), else 0"""
+    ks = [int(t[1:]) for t in tags if t[:1] == "I" and t[1:].isdigit()]
+    return min(ks) if ks else 0
+
+
 def den_tn(tn, out):
-    """denotation of a quimb network object (only .data / .inds / .exponent are read)"""
-    ts = list(tn.tensor_map.values())
-    return den([np.asarray(t.data) for t in ts], [tuple(t.inds) for t in ts], out, tn.exponent)
+    """denotation of a quimb network object (only .data / .inds / .tags / .exponent are read); tensors carrying site
+    tags I{k} are folded in site order"""
+    ts = sorted(tn.tensor_map.values(), key=lambda t: _site_of(t.tags))
+    seq = any(_site_of(t.tags) for t in ts)
+    return den([np.asarray(t.data) for t in ts], [tuple(t.inds) for t in ts], out, tn.exponent, sequential=seq)
 
 
 def _no_nested_pools():
@@ -128,7 +143,10 @@ class Spec:
     def ref(self, out):
         out = tuple(out)
         if out not in self._cache:
-            self._cache[out] = den(self.arrays, self.labels, out, self.exponent)
+            order = sorted(range(self.nt), key=lambda k: _site_of(self.tags[k]))
+            seq = any(_site_of(t) for t in self.tags)
+            self._cache[out] = den([self.arrays[k] for k in order], [self.labels[k] for k in order], out, self.exponent,
+                                   sequential=seq)
         return self._cache[out]
 
     def mk(self, qtn, exponent=None, which=None):
